@@ -333,3 +333,24 @@ Example C11_flow_ex_set_limits :   (* the pre-fix witness on the machine as it i
 Proof. exact faithful_on_set_limits_witness. Qed.
 Local Close Scope Z_scope.
 (* END C11_flow *)
+
+(* ---- C11 + C01 + C02 composed: a stream of messages ---------------------------------------------------------
+   For EVERY list ms of well-formed messages without descriptors and EVERY way [chunks] of cutting the
+   concatenation of their canonical serialisations into reads: the loader model never declares corruption and
+   queues exactly one message per element of ms, in order; each queued message's header ++ body are exactly
+   the bytes of the corresponding m (no byte moves across a message boundary, none is lost), its body bytes are
+   m's body, its loaded header fields are m's fields, it holds no descriptors, and the DBusTypeReader model
+   reads exactly m's values from it.  Proof (Proofs/EndToEnd.v): C11_chunking reduces to the unsplit stream;
+   induction over ms with C01_complete per message.  Non-vacuity: ex_stream_premises there (two messages in
+   different byte orders cut inside the fixed header, a body and the second header). *)
+From DV Require Import Spec.Codec Wire.Reader Proofs.CodecMessage Proofs.LoaderComplete Proofs.EndToEnd.
+Theorem C11_stream_delivery : forall ms chunks,
+  Forall (fun m => wf_msg m = true /\ spec_nfds (s_fields m) = 0) ms ->
+  concat chunks = concat (map spec_encode_message ms) ->
+  exists msgs, outcome (feed_all loader_new chunks) = (false, msgs) /\
+    Forall2 (fun m msg =>
+      m_header msg ++ m_body msg = spec_encode_message m /\ m_body msg = m_bodyb m /\ m_nfds msg = 0 /\
+      Forall2 (hf_ok (s_le m)) (s_fields m) (m_fields msg) /\
+      read_all (s_le m) (s_sig m) (m_body msg) = inl (s_body m)) ms msgs.
+Proof. exact stream_delivery. Qed.
+Print Assumptions C11_stream_delivery.
